@@ -99,8 +99,10 @@ inet_pton4(const char *src, u_char *dst)
 			if (! saw_digit) {
 				if (++octets > 4)
 					return (0);
-				saw_digit = 1;
 			}
+			/* "ddd": one to three digits per field */
+			if (++saw_digit > 3)
+				return (0);
 			*tp = new;
 		} else if (ch == '.' && saw_digit) {
 			if (octets == 4)
